@@ -587,8 +587,8 @@ func (d *diffEnv) step(args []string) (resp.Value, bool) {
 		for k, before := range d.prev.Keys {
 			after := dump.Keys[k]
 			if after != nil && !sameDump(before, after, d.prev.T0, d.prev.T1, dump.T0, dump.T1) {
-				// natural expiry between the dumps is not a mutation
-				if before.PTTL >= 0 && before.PTTL < 1000 && after.Type == "none" {
+				// natural expiry between (or during) the dumps is not a mutation
+				if before.PTTL >= 0 && before.PTTL < (dump.T1-d.prev.T0)+1000 {
 					continue
 				}
 				diverged = true
@@ -614,11 +614,12 @@ func (d *diffEnv) step(args []string) (resp.Value, bool) {
 		if i := firstKeyArg(args); i > 0 && i < len(args) {
 			fk = args[i]
 		}
-		unlistedExpired := 0
+		anyAmbiguous := false
 		for _, k := range ks {
 			o, amb := d.m.GetI(db, k, d0, d1)
 			if amb {
 				r.Count("ambiguous_time_keys", 1)
+				anyAmbiguous = true
 				continue // the deadline falls inside the dump window
 			}
 			kd := dump.Keys[k]
@@ -637,7 +638,7 @@ func (d *diffEnv) step(args []string) (resp.Value, bool) {
 				}
 				sig := fmt.Sprintf("%s/%s/state/%s/%s%s", d.monitor, tag, prior, cls, role)
 				if s2 := refineStateSig(args, cls, o, kd, d0, d1); s2 != "" {
-					sig = d.monitor + "/" + s2
+					sig = "model/" + s2
 				}
 				if stepSig != "" {
 					sig = stepSig
@@ -651,9 +652,8 @@ func (d *diffEnv) step(args []string) (resp.Value, bool) {
 				diverged = true
 				r.Report("invariant/keys-vs-exists", fmt.Sprintf("after %s: key %q has TYPE %s but KEYS * lists it: %v", cmdString(args), k, kd.Type, dump.Listed[k]), d.replay(nil))
 			}
-			_ = unlistedExpired
 		}
-		if dump.DBSize != int64(len(dump.Listed)) {
+		if dump.DBSize != int64(len(dump.Listed)) && !anyAmbiguous {
 			diverged = true
 			r.Report("invariant/dbsize-vs-keys", fmt.Sprintf("after %s: DBSIZE=%d but KEYS * lists %d keys %v", cmdString(args), dump.DBSize, len(dump.Listed), keysOf(dump.Listed)), d.replay(nil))
 		}
